@@ -278,6 +278,7 @@ func (e *Engine) VerifyFunction(fn *ssa.Function, con *Contract) (v *FV) {
 		if v.sections != nil {
 			n = v.sections[lk]
 		}
+		n += len(v.serialGroups[lk])
 		goal := "true"
 		if n > 1 {
 			goal = "false"
@@ -330,7 +331,7 @@ func (v *FV) frameCheck(fr *Frame, st *State, con *Contract, vars map[string]TV,
 	sort.Strings(names)
 	k := v.declare("frame_k", "Int")
 	for _, a := range names {
-		if strings.HasPrefix(a, "RV_") || strings.HasSuffix(a, "$n") || a == "TOP" || a == "CALLS" || a == "ARGNN" || a == "ARGV" || a == "LOCKED" || a == "CLOCK" {
+		if strings.HasPrefix(a, "RV_") || strings.HasSuffix(a, "$n") || a == "TOP" || a == "CALLS" || a == "ARGNN" || a == "ARGV" || a == "LOCKED" || a == "CLOCK" || a == "STAMP" || a == "RESNIL" {
 			continue // ghost iteration state of range loops; arrays of objects allocated here
 		}
 		// locals allocated by the function itself are > N0 and invisible to the caller
@@ -729,7 +730,7 @@ func (v *FV) allowedLocs(fr *Frame, st *State, locs []string, con *Contract, var
 func (v *FV) loopFrameTerm(fr *Frame, st *State, arrs []string, allowed map[string][]Term) Term {
 	var parts []string
 	for _, a := range arrs {
-		if strings.HasPrefix(a, "RV_") || strings.HasSuffix(a, "$n") || a == "TOP" || a == "CALLS" || a == "ARGNN" {
+		if strings.HasPrefix(a, "RV_") || strings.HasSuffix(a, "$n") || a == "TOP" || a == "CALLS" || a == "ARGNN" || a == "STAMP" || a == "RESNIL" {
 			continue
 		}
 		now := v.heapGet(st.snap, a)
